@@ -622,7 +622,9 @@ func genSettings() *rapid.Generator[settings] {
 			N:        rapid.SampledFrom([]int{1, 1, 2, 2, 3, 3, 4, 5, 6}).Draw(t, "n"),
 			Period:   genDur(0, 0, 500*time.Millisecond, time.Second, 2500*time.Millisecond, 3*time.Second, 7*time.Second, 10*time.Second).Draw(t, "period"),
 			Interval: genDur(0, 100*time.Millisecond, 500*time.Millisecond, time.Second, time.Second, 2*time.Second).Draw(t, "interval"),
-			Cooldown: genDur(0, time.Second, 2*time.Second, 5*time.Second, 20*time.Second, 300*time.Second).Draw(t, "cooldown"),
+			// cool-downs that are no whole multiple of anything round: 31 s, 45 s, 59 s, 100 s, 1.5 s
+			Cooldown: genDur(0, time.Second, 2*time.Second, 5*time.Second, 20*time.Second, 300*time.Second, 45*time.Second, 100*time.Second,
+				31*time.Second, 59*time.Second, 1500*time.Millisecond).Draw(t, "cooldown"),
 		}
 	})
 }
